@@ -125,6 +125,7 @@ func TestC02_ManyMessages(t *testing.T) {
 				pks[pos] = pk2
 				g.Class("redecodedPublicKey")
 			}
+			pks[pos] = pkVariant(g, "pkVia", blsKey{pk: pks[pos], x: xs[ki[i]]}) // e.g. the un-normalised result of RemoveBLSPublicKeys
 			ms[pos], hs[pos] = msgs[mi[i]].m, msgs[mi[i]].h
 			s, err := sk.Sign(ms[pos], hs[pos])
 			if err != nil {
@@ -228,6 +229,9 @@ func TestC02_OneMessage(t *testing.T) {
 				}
 			}
 			pks[i] = decodeSK(g, xs[i]).PublicKey()
+			if g.Chance("pkOtherRoute", 1, 4) {
+				pks[i] = pkVariant(g, fmt.Sprintf("pkVia%d", i), blsKey{pk: pks[i], x: xs[i]})
+			}
 			sum.Add(sum, xs[i])
 			sum.Mod(sum, blsR)
 		}
